@@ -140,3 +140,56 @@ def temperature_mismatch(cx, kinds):
         cx.fail("refused_iadd", "a+=b at different temperatures was accepted")
     except Exception:
         pass
+
+
+@harness("C09", "spectral_density_addition",
+         quick=[dict(units=None), dict(units="1/cm")],
+         thorough=[dict(units=u) for u in (None, "1/cm", "eV", "THz")],
+         functions=[F_SD + ":SpectralDensity.__init__", F_SD + ":SpectralDensity.__add__",
+                    F_SD + ":SpectralDensity.__iadd__", F_SD + ":SpectralDensity.add_to_data",
+                    F_SD + ":SpectralDensity.add_to_data2", F_SD + ":SpectralDensity._make_overdamped_brownian",
+                    F_SD + ":SpectralDensity._make_underdamped_brownian"],
+         bound="three analytic spectral-density components (two overdamped, one underdamped Brownian) with symbolic "
+               "parameters on a 6-point dyadic frequency grid; components constructed in internal units, the "
+               "additions (a+b)+c, a+(b+c), a+=b performed inside the given energy-units context",
+         out="Underdamped / B777 / CP29 types")
+def spectral_density_addition(cx, units):
+    import contextlib
+    import quantarhei as qr
+    with cx.concrete():
+        wa = qr.FrequencyAxis(-3 * 0.0625, 6, 0.0625)
+    T = cx.real("T", 100.0, 300.0)
+    comps = []
+    for i in range(3):
+        lam = cx.real("lam%d" % i, 0.001, 0.01)
+        if i < 2:
+            tau = cx.real("tau%d" % i, 50.0, 150.0)
+            cx.assume(tau > 0, "correlation times, dampings, frequencies > 0")
+            prm = dict(ftype="OverdampedBrownian", reorg=lam, cortime=tau, T=T)
+        else:
+            gam, om0 = cx.real("gamma", 0.005, 0.02), cx.real("freq", 0.05, 0.2)
+            cx.assume(gam > 0)
+            cx.assume(om0 > 0)
+            prm = dict(ftype="UnderdampedBrownian", reorg=lam, gamma=gam, freq=om0, T=T)
+        with qr.energy_units("int"):
+            comps.append(qr.SpectralDensity(wa, prm))
+    cx.assume_denominators_nonzero("positive parameters")
+    datas = [c.data.copy() for c in comps]
+    total = datas[0] + datas[1] + datas[2]
+    ltot = comps[0].lamb + comps[1].lamb + comps[2].lamb
+    ctx = (lambda: qr.energy_units(units)) if units else contextlib.nullcontext
+    with ctx():
+        left = (comps[0] + comps[1]) + comps[2]
+        right = comps[0] + (comps[1] + comps[2])
+        with qr.energy_units("int"):
+            acc = qr.SpectralDensity(wa, comps[0].params)
+        acc += comps[1]
+        acc += comps[2]
+    cx.assume_denominators_nonzero("positive parameters")
+    for name, f in (("left", left), ("right", right), ("inplace", acc)):
+        cx.prove_eq(name + "/data", f.data, total, tol=1e-7)
+        cx.prove_eq(name + "/lamb", f.lamb, ltot, tol=1e-9)
+        cx.prove(name + "/params", [p["ftype"] for p in f.params] ==
+                 ["OverdampedBrownian", "OverdampedBrownian", "UnderdampedBrownian"])
+    for i, c in enumerate(comps):
+        cx.prove_eq("operand_untouched[%d]" % i, c.data, datas[i])
